@@ -644,6 +644,8 @@ fn main() {
         "bnd_c07" => bounded::bnd_c07(),
         "bnd_c14" => bounded::bnd_c14(),
         "bnd_c20" => bounded::bnd_c20(),
+        "c01_colours" => bounded::c01_colours(),
+        "c20_adoption" => bounded::c20_adoption(),
         "bnd_doc" => bounded::bnd_doc(),
         "c03_elements" => bounded::c03_elements(),
         "c02_elements" => bounded::c02_elements(),
